@@ -53,6 +53,9 @@ def gen_recs(r, fmt):
                     v = r.choice(["a b", "x y z"])
             rec.append((k, v))
         recs.append(rec)
+    if fmt in ("dkvp", "nidx") and r.chance(0.5):
+        # pieces that end in the last byte of a multi-character IRS without being the IRS (never a separator itself)
+        recs = [[(k, r.choice([v, "y", "ay", "b", "ab", "x", "a.b"]) if r.chance(0.4) else v) for k, v in rec] for rec in recs]
     if fmt in ("csv", "csvlite", "tsv") and nf == 1:
         recs = [[(k, v if v != "" else "nonempty") for k, v in rec] for rec in recs]
     if fmt in ("csvlite", "json", "jsonl", "dkvp", "xtab", "pprint") and r.chance(0.3) and n > 2:
@@ -69,8 +72,8 @@ VARIANTS = {
     "json": [([], []), (["--jvstack"], []), (["--no-jvstack"], []), (["--jlistwrap"], [])],
     "jsonl": [([], [])],
     "dkvp": [([], []), (["--ofs", ";", "--ops", ":"], ["--ifs", ";", "--ips", ":"]), (["--ofs", ";;", "--ops", "::"], ["--ifs", ";;", "--ips", "::"]),
-             (["--ors", ";\n"], ["--irs", ";\n"])],
-    "nidx": [(["--ofs", " "], ["--ifs", " "]), (["--ofs", ","], ["--ifs", ","])],
+             (["--ors", ";\n"], ["--irs", ";\n"]), (["--ors", ";;"], ["--irs", ";;"]), (["--ors", "xy"], ["--irs", "xy"]), (["--ors", "aab"], ["--irs", "aab"])],
+    "nidx": [(["--ofs", " "], ["--ifs", " "]), (["--ofs", ","], ["--ifs", ","]), (["--ofs", " ", "--ors", "||"], ["--ifs", " ", "--irs", "||"])],
     "xtab": [([], []), (["--ops", ":"], ["--ips", ":"])],
     "pprint": [([], []), (["--barred"], ["--barred-input"]), (["--right"], [])],
     "markdown": [([], [])],
